@@ -138,7 +138,7 @@ func witness(r *rand.Rand, t *ty) val {
 
 // ---- definitions ----------------------------------------------------------------------------------------------------------
 
-var namePool = []string{"a", "b", "c", "d", "e", "f", "g", "h"}
+var namePool = []string{"a", "b", "c", "d", "e", "f", "g", "h", "i", "j", "k", "l"}
 
 func pickKind(r *rand.Rand) string {
 	switch n := r.Intn(100); {
@@ -197,10 +197,14 @@ func subset(r *rand.Rand, xs []string) []string {
 	return out
 }
 
-// genChain: 1–3 definitions: a chain, a fork (two children of one parent, often identically shaped) or unrelated roots
+// genChain: 1–5 definitions (inheritance depth 0–4): a chain, a fork (children of one parent, often identically shaped), a
+// chain with a side branch, or unrelated roots
 func genChain(r *rand.Rand) []def {
 	n := 1 + r.Intn(3)
-	shape := r.Intn(4) // 0,1 chain; 2 fork; 3 unrelated roots
+	if r.Intn(3) == 0 {
+		n = 1 + r.Intn(5)
+	}
+	shape := r.Intn(5) // 0,1 chain; 2 fork; 3 unrelated roots; 4 chain with a side branch (parent = any earlier definition)
 	var defs []def
 	used := 0
 	for i := 0; i < n; i++ {
@@ -211,9 +215,14 @@ func genChain(r *rand.Rand) []def {
 				d.parent = i - 1
 			case 2:
 				d.parent = 0
+			case 4:
+				d.parent = i - 1
+				if r.Intn(3) == 0 {
+					d.parent = r.Intn(i)
+				}
 			}
 		}
-		if i == 2 && shape >= 2 && r.Intn(2) == 0 {
+		if i == 2 && (shape == 2 || shape == 3) && r.Intn(2) == 0 {
 			// identically shaped sibling
 			d = defs[1]
 			d.attrs = append([]attr{}, defs[1].attrs...)
@@ -227,6 +236,9 @@ func genChain(r *rand.Rand) []def {
 			continue
 		}
 		na := r.Intn(4)
+		if n > 3 {
+			na = r.Intn(3)
+		}
 		if shape == 3 {
 			used = 0
 		}
@@ -510,6 +522,14 @@ func script(r *rand.Rand, s *spec, tuples int) []action {
 	for k := 0; k < 3; k++ {
 		acts = append(acts, action{op: "inst", t: r.Intn(nt), o: r.Intn(no)})
 	}
+	if nt >= 3 {
+		// the whole instance-of matrix: every type against every object (every ancestor accepts, nothing else does)
+		for t := 0; t < nt; t++ {
+			for o := 0; o < no; o++ {
+				acts = append(acts, action{op: "inst", t: t, o: o})
+			}
+		}
+	}
 	return acts
 }
 
@@ -674,6 +694,114 @@ func exhaustive2(g *core.G) {
 	}
 }
 
+// deep chains, exhaustively over a small universe: inheritance depth 0..4 (1..5 levels); level i declares attribute n<i>,
+// its shape rotating through the 6 shapes; equality declared nowhere / by the root / by every level on its own attribute /
+// by the leaf only; the root's attribute overridden nowhere / by the leaf / by a middle level / by every level (each
+// override says `override => true`, a constant is overridden by a constant, everything else by a normal attribute with a
+// default); equality_include_type absent or false on all levels.  For EVERY level: three objects (all positions given,
+// named with the required ones only, last position changed); then the whole instance-of matrix (every type x every
+// object: every ancestor accepts, no descendant or stranger does), Get of every attribute on the leaf's objects,
+// init-hashes, and Equals over all pairs (same type, ancestor/descendant).
+func exhaustiveDeep(g *core.G) {
+	tInt := &ty{k: "int"}
+	tOpt := &ty{k: "opt", elt: tInt}
+	shape := func(n string, k int) attr {
+		return []attr{
+			{name: n, ty: tInt, kind: "n"},
+			{name: n, ty: tInt, kind: "n", dflt: iv(1)},
+			{name: n, ty: tOpt, kind: "n"},
+			{name: n, ty: tInt, kind: "g"},
+			{name: n, ty: tInt, kind: "c", dflt: iv(7)},
+			{name: n, ty: tInt, kind: "d"},
+		}[k%6]
+	}
+	overriding := func(root attr, lvl int) attr {
+		if root.kind == "c" {
+			return attr{name: root.name, ty: tInt, kind: "c", dflt: iv(int64(8 + lvl)), override: true}
+		}
+		return attr{name: root.name, ty: tInt, kind: "n", dflt: iv(int64(5 + lvl)), override: true}
+	}
+	seen := map[string]bool{}
+	for L := 1; L <= 5; L++ {
+		for rot := 0; rot < 6; rot++ {
+			for _, eqMode := range []string{"none", "root", "each", "leaf"} {
+				for _, ov := range []string{"none", "leaf", "mid", "all"} {
+					if L == 1 && ov != "none" {
+						continue
+					}
+					eit := "-"
+					if (rot+L)%2 == 0 {
+						eit = "f"
+					}
+					var defs []def
+					for i := 0; i < L; i++ {
+						own := shape(fmt.Sprintf("n%d", i), rot+i)
+						d := def{parent: i - 1, attrs: []attr{own}, eqKind: "-", eit: eit}
+						if i > 0 && (ov == "all" || (ov == "leaf" && i == L-1) || (ov == "mid" && i == L/2 && i < L-1)) {
+							d.attrs = append(d.attrs, overriding(defs[0].attrs[0], i))
+						}
+						if eqMode == "each" || (eqMode == "root" && i == 0) || (eqMode == "leaf" && i == L-1) {
+							d.eqKind = "l"
+							if own.kind != "c" && own.kind != "d" {
+								d.eq = []string{own.name}
+							}
+						}
+						defs = append(defs, d)
+					}
+					s := mkSpec(defs)
+					var acts []action
+					var objT []int
+					for t := 0; t < L; t++ {
+						pos := s.pos[t]
+						base := make([]val, len(pos))
+						var names []string
+						for i, q := range pos {
+							base[i] = val{k: "i", i: int64(2 + i)}
+							names = append(names, q.name)
+						}
+						alt := append([]val{}, base...)
+						if len(alt) > 0 {
+							alt[len(alt)-1] = val{k: "i", i: 9}
+						}
+						req := s.req[t]
+						acts = append(acts, action{op: "newpos", t: t, vals: base},
+							action{op: "newnamed", t: t, names: names[:req], vals: base[:req]},
+							action{op: "newpos", t: t, vals: alt})
+						objT = append(objT, t, t, t)
+					}
+					no := len(objT)
+					for t := 0; t < L; t++ {
+						for o := 0; o < no; o++ {
+							acts = append(acts, action{op: "inst", t: t, o: o})
+						}
+					}
+					for _, a := range s.all[L-1] {
+						for o := no - 3; o < no; o++ {
+							acts = append(acts, action{op: "get", o: o, name: a.name})
+						}
+					}
+					for o := 0; o < no; o++ {
+						acts = append(acts, action{op: "inithash", o: o})
+					}
+					for o := 0; o < no; o++ {
+						for o2 := 0; o2 < no; o2++ {
+							// same type, or the leaf against everything, or neighbours in the chain
+							if objT[o] == objT[o2] || objT[o] == L-1 || objT[o2] == L-1 || objT[o]+1 == objT[o2] {
+								acts = append(acts, action{op: "eq", o: o, o2: o2})
+							}
+						}
+					}
+					line := opLine(defs, acts)
+					if !seen[line] {
+						seen[line] = true
+						g.Emit(line)
+					}
+				}
+			}
+		}
+	}
+}
+
 // ---- entry --------------------------------------------------------------------------------------------------------------------
 
 // attribute-less types (pcore treats a type without attributes whose ancestors have none either as an INTERFACE, matched
@@ -713,6 +841,7 @@ func genInterfaces(g *core.G) {
 func gen(g *core.G) {
 	exhaustive(g)
 	exhaustive2(g)
+	exhaustiveDeep(g)
 	genTParam(g)
 	genInterfaces(g)
 	genIface(g)
@@ -724,7 +853,15 @@ func gen(g *core.G) {
 		defs := genChain(g.Rng)
 		s := mkSpec(defs)
 		for k := 0; k < perChain; k++ {
-			g.Emit(opLine(defs, script(g.Rng, s, tuples)))
+			n := tuples
+			if len(defs) > 3 {
+				n += 3 // deep chains: enough objects to meet several levels
+			}
+			line := opLine(defs, script(g.Rng, s, n))
+			g.Emit(line)
+			if k == 0 && i%3 == 0 {
+				g.Emit("@objd " + strings.TrimPrefix(line, "obj ")) // the same with functions and annotations in every definition
+			}
 		}
 	}
 	// malformed stream: actions on types/objects that do not exist, definitions whose parent was rejected
